@@ -53,7 +53,7 @@ PNTable ==
 PNScope(d) == [pfx |-> [p \in {d.pfx[i][1] : i \in 1..Len(d.pfx)} |->
                           (d.pfx[CHOOSE i \in 1..Len(d.pfx) : d.pfx[i][1] = p])[2]],
                dflt |-> d.dflt]
-PNName(q, inner, outer) == NameUri(q, inner, outer)
+PNName(q, inner, outer) == JNameUri(q, inner, outer)
 
 (* an expression is grammatical: right number of arguments (all, or the short form), *)
 (* '-' only at optional positions, identifier / attributes only where allowed         *)
@@ -91,7 +91,7 @@ PNLit(l, inner, outer) ==
                  ELSE IF x = "dateTime" THEN [t |-> "dt", v |-> l.s.iso]
                  ELSE IF x = "anyURI" THEN [t |-> "uri", u |-> l.s.uri]
                  ELSE IF dt = <<"prov#", "QUALIFIED_NAME">> \/ x = "QName"
-                      THEN [t |-> "qn", u |-> StrUri(l.s, inner, outer)]
+                      THEN [t |-> "qn", u |-> JStrUri(l.s, inner, outer)]
                  ELSE [t |-> "lit", v |-> l.s.v, dt |-> dt]
 
 PNRecord(e, inner, outer) ==
